@@ -19,6 +19,10 @@ NOTES = {
  'C14_m6': 'first missed by C14: range over a map (nondeterministic order) is now a frame obligation',
  'C18_m3': 'first missed by C18: callee clauses assumed at call sites are now discharged in every check that uses them',
  'C18_m4': 'first missed by C18: same (splitCouple contract)',
+ 'C03_m7': 'first missed by the quick subset of the inner stage; C03 now runs the whole inner stage in both tiers',
+ 'C11_m8': 'first missed: C11 now discharges the contract of Rating itself',
+ 'C14_m7': 'first missed: append into a package-level backing array is now a write in the frame analysis',
+ 'C14_m8': 'first missed: every function calling Pool.Get is now run with arbitrary pool contents',
  'C03_m2': 'lifting through the relational obligations, which C03 now discharges itself',
 }
 
@@ -46,7 +50,7 @@ with open('/verif/seeded/MATRIX.md', 'w') as f:
     f.write('# Seeded changes and which checks report them\n\n')
     f.write('Every change compiles, passes the pinned test suite, and breaks the property named by its directory\n'
             '(`<property>_<mutant>`); `confirmed` = I re-checked build / suite / demo-fails / demo-passes-on-pristine on a scratch copy.\n'
-            'm1, m2: first round of sub-agents; m3, m4 and m5, m6: second and third rounds (each told what the earlier rounds had produced and asked for a different kind of change).\n'
+            'm1, m2: first round of sub-agents; m3, m4 and m5, m6: second and third rounds; m7, m8: a fourth round on eight properties (each told what the earlier rounds had produced and asked for a different kind of change).\n'
             '`Cxx:VIOLATION` = the quick check of Cxx exits 1 with a VIOLATION line on the changed tree; `quiet` = exits 0.\n\n')
     f.write('| change | files | what it breaks | confirmed | checks run (quick tier) | note |\n|---|---|---|---|---|---|\n')
     for r in rows:
